@@ -22,6 +22,7 @@ func init() { register("C01", checkC01) }
 func checkC01(p *Prog, r *Report) {
 	checkFullStrongSum(p, r)
 	checkReadContract(p, r)
+	checkWindowFullyRead(p, r, "C01/WINDOW-FULLY-READ")
 	checkWholeFileSendsAll(p, r)
 	// shared necessary conditions (rule ids keep their home property's prefix)
 	checkC02(p, r)
@@ -130,6 +131,12 @@ func checkReadContract(p *Prog, r *Report) {
 				continue
 			}
 			allCalls(fn, func(c ssa.CallInstruction) {
+				if cn := calleeName(c); pk == pkgSender && (cn == "io.ReadFull" || cn == "io.ReadAtLeast") {
+					// the library helper honours the contract itself
+					n++
+					r.OK(rule, funcKey(fn)+" "+cn, p.Pos(instrPos(c)), "full-read helper of the standard library")
+					return
+				}
 				if !c.Common().IsInvoke() || c.Common().Method.Name() != "Read" {
 					return
 				}
